@@ -430,12 +430,15 @@ def _mulrng(x, y):
 
 
 class SNum(Sym):
-    __slots__ = ("z", "rng", "seq", "tag")
+    __slots__ = ("z", "rng", "seq", "tag", "txt")
 
-    def __init__(self, z, rng=None):
+    def __init__(self, z, rng=None, txt=None):
         self.z = z
         self.rng = rng
         self.tag = None
+        # txt: how the number is RENDERED as text - None (not tracked), or a bool / SBool "with a decimal
+        # point" (a float64 cell prints as 500.0, an int64 cell as 500). Set by the CSV model of the VFS.
+        self.txt = txt
         _SEQ[0] += 1
         self.seq = _SEQ[0]
 
@@ -652,6 +655,9 @@ def sdiv(x, y):
     return wrap(a / b)
 
 
+import numbers as _numbers
+_numbers.Real.register(SNum)  # isinstance(x, numbers.Real) holds for symbolic numbers as it does for numpy scalars
+
 DIV_HOOK = [None]  # optional callable(x, y) run before a division by a symbolic (non-table) denominator
 
 
@@ -722,7 +728,17 @@ class SKey:
     def eq_term(self, o):
         if not isinstance(o, SKey) or len(o.parts) != len(self.parts):
             return False
-        return s_and(*[(a == b) for a, b in zip(self.parts, o.parts)])
+        conds = []
+        for a, b in zip(self.parts, o.parts):
+            conds.append(a == b)
+            ta, tb = getattr(a, "txt", None), getattr(b, "txt", None)
+            if ta is not None and tb is not None:
+                # a key built from the TEXT of the values: 500 and 500.0 are different strings
+                if isinstance(ta, bool) and isinstance(tb, bool):
+                    conds.append(ta == tb)
+                else:
+                    conds.append(SBool(_z(ta) == _z(tb)))
+        return s_and(*conds)
 
     def __eq__(self, o):
         return bool(self.eq_term(o))
